@@ -16,7 +16,7 @@ ID = 'C15'
 LEVEL = 'exploration'
 RUNS = {'quick': 30000, 'thorough': 600000}
 CHUNK = 80
-PROBES = ['consumer_edits_traces', 'image_unmapped_that_was_never_mapped', 'records_fed_in_batches', 'map_record_with_start_qualifier_in_launch', 'terminate_names_sampled_thread_inside_sample', 'very_many_images', 'lost_record', 'repeated_request_same_object', 'frame_exactly_at_load_address', 'frame_one_below_lowest', 'frame_between_adjacent_images', 'duplicate_address_announced',
+PROBES = ['stack_data_under_two_ids', 'consumer_edits_traces', 'image_unmapped_that_was_never_mapped', 'records_fed_in_batches', 'map_record_with_start_qualifier_in_launch', 'terminate_names_sampled_thread_inside_sample', 'very_many_images', 'lost_record', 'repeated_request_same_object', 'frame_exactly_at_load_address', 'frame_one_below_lowest', 'frame_between_adjacent_images', 'duplicate_address_announced',
           'header_count_below_data', 'header_count_above_data', 'header_count_zero', 'sample_without_header', 'sample_without_flag',
           'launch_with_nested_maps', 'shared_cache_map', 'image_announced_inside_sample_window', 'announcement_after_sample',
           'unrelated_record_in_sample', 'several_data_records', 'via_file_api', 'out_of_order_announcements']
@@ -180,13 +180,25 @@ def generate(rng, index, tier):
     shape = rng.pick(['sensitive', 'uniform', 'uniform', 'bursty', 'rr1', 'serial'])
     sched = draw_sensitive(rng, per, tool.codes()) if shape == 'sensitive' else kernel.draw_schedule(rng, per, shape)
     total = sum(len(p) for p in per)
+    table_spec = None
+    if rng.chance(0.06):
+        # the caller's table names a second id PERF_STK_UData (tables repeat names), and some stack-data records carry that id
+        alias = 0x2f00cc00 + 4 * rng.randrange(1, 50)
+        table_spec = {'extra': {str(alias): 'PERF_STK_UData'}}
+        for th in threads[nann:]:
+            for op in th['ops']:
+                if op.get('k') == 'sys' and op.get('name') == 'PERF_Event':
+                    for j_, sub in enumerate(op['in']):
+                        if sub.get('name') == 'PERF_STK_UData' and rng.chance(0.5):
+                            op['in'][j_] = {'k': 'raw', 'id': alias, 'q': sub.get('q', 0), 'a': list(sub['a'])}
     faults = []
     if rng.chance(0.3):
         for _f in range(rng.randint(1, 2)):
             faults.append({'k': 'drop', 'at': rng.randrange(max(1, total))})      # a lost record (END of a sample, a header, a map...)
     return {'threads': threads, 'schedule': sched, 'via_file': rng.chance(0.3), 't0': (rng.randrange(1, 1 << 40) << 8) | 1,
             'tsmode': worlds.draw_tsmode(rng, ties=False), 'faults': faults, 'requests': rng.pick([1, 1, 2, 3]), 'earlier_other': rng.chance(0.2),
-            'pages': [rng.randint(1, 7) for _ in range(rng.randint(1, 5))] if rng.chance(0.25) else None, 'consumer_edits': rng.chance(0.15)}
+            'pages': [rng.randint(1, 7) for _ in range(rng.randint(1, 5))] if rng.chance(0.25) else None, 'consumer_edits': rng.chance(0.15),
+            **({'table': table_spec} if table_spec else {})}
 
 
 def _words_to_uuid(a):
@@ -205,6 +217,8 @@ def execute(scn):
     if fired:
         bump('fault:lost_event', sum(fired.values()))
         bump('probe:lost_record')
+    if isinstance(scn.get('table'), dict) and scn['table'].get('extra'):
+        bump('probe:stack_data_under_two_ids')
     ids = worlds.catalog()['ids']
     MAP, SC, LAUNCH = ids['DYLD_uuid_map_a'], ids['DYLD_uuid_shared_cache_a'], ids['DBG_DYLD_TIMING_LAUNCH_EXECUTABLE']
     PE, HDR, DATA = ids['PERF_Event'], ids['PERF_STK_UHdr'], ids['PERF_STK_UData']
@@ -242,7 +256,7 @@ def execute(scn):
             s = open_sample[r['t']]
             if r['id'] == HDR and s['hdr'] is None:
                 s['hdr'] = r['a'][1]
-            elif r['id'] == DATA:
+            elif r['id'] == DATA or table.get(r['id']) == 'PERF_STK_UData':
                 s['rows'].append(list(r['a']))
             else:
                 s['other'] += 1
